@@ -107,3 +107,29 @@ package scheduling
 // but the engine keeps the captured variable newNodeClaim at nil across the call of the package-local parallelizeUntil
 // (the worker's writes are not applied), so the code after `if newNodeClaim != nil` is unreachable for it and the
 // vacuity guard of the subtractMax site rightly fails.
+
+// ToNodeClaim (only called by Provisioner.Create) is cut off for C03: the contract claims nothing (anything may change,
+// no postcondition) and the body is NOT verified here. Without it ToNodeClaim is inlined into Provisioner.Create and
+// drags in the preconditions of OrderByPrice / Requirements.Add / NewRequirements / resolveCustomLabelsFromRequirements
+// (C19, C17, C13: well-formedness of the NodeClaim's requirement set), which are not C03's business and which
+// Provisioner.Create cannot demand from its callers. Replace by a real contract when C13 needs one.
+//@ func (*NodeClaimTemplate).ToNodeClaim
+//@   prop C03
+//@   trusted
+//@   modifies *
+
+// updateRemainingResources (called once per existing node when the scheduler is built): the head-room of the node's own
+// NodePool, if that pool is tracked, is reduced by the node's capacity (the list StateNode.Capacity returns: it
+// includes {nodes: 1}) for every resource the head-room names ([chargesNodeCapacity]: the stored list is resources.Subtract(head-room, node.Capacity()),
+// see its contract in pkg/utils/resources); the names stay; every other pool keeps its head-room.
+//@ func (*Scheduler).updateRemainingResources
+//@   prop C03
+//@   modifies s.remainingResources[:]
+//@   let pool = state.snLab(node)[v1.NodePoolLabelKey]
+//@   let before = old(s.remainingResources[pool])
+//@   ensures [tracked] forall q string {q in s.remainingResources} :: (q in s.remainingResources) <==> old(q in s.remainingResources)
+//@   ensures [others] forall q string {s.remainingResources[q]} :: q != pool ==> s.remainingResources[q] == old(s.remainingResources[q])
+//@   ensures [untracked] !old(pool in s.remainingResources) ==> s.remainingResources[pool] == before
+//@   ensures [names] old(pool in s.remainingResources) ==> (forall k corev1.ResourceName {k in s.remainingResources[pool]} :: (k in s.remainingResources[pool]) <==> (k in before))
+//@   site resources.Subtract requires [chargesNodeCapacity] old(pool in s.remainingResources) && $0 == s.remainingResources[pool] && $1 == @(*StateNode).Capacity
+//@   ensures [replaced] old(pool in s.remainingResources) ==> (fresh(s.remainingResources[pool]) && s.remainingResources[pool] != nil)
